@@ -21,6 +21,7 @@ FN_SCEN = {"plain": ["Hclose", "HIsync", "Hsync", "HTPsync", "HIextend_file", "H
            "cache16": ["Hclose", "HIsync", "HTPsync"],
            "reopen": ["Hclose", "Hsync", "HP_read 4", "HPseek 30"],
            "read": ["Hclose", "HP_read 4", "HPseek 2", "HPseekcur"],
+           "rdwr": ["HP_write 5", "HP_read 3", "HPseekcur", "HPseek 0", "Hclose", "HIextend_file"],
            "attached": ["Hclose"],
            "two": ["Hclose", "Hsync"]}
 
@@ -32,7 +33,7 @@ RULE = ("20 workload programs (H elements incl. linked blocks, DD-block overflow
         "(errno EIO); a PRNG-chosen (VERIF_SEED) third of the indices (thorough: all) is repeated with strict-prefix "
         "transfers (errno ENOSPC). Each run is a child process under ASan/UBSan with a 20 s watchdog; recorded: every "
         "API return value, exit status, final file bytes and a hash of all data read, compared with the fault-free "
-        "run. Function level: 8 prepared file records x up to 8 L1 functions x every fault index x single/sticky. "
+        "run. Function level: 9 prepared file records x up to 8 L1 functions x every fault index x single/sticky. "
         "A case is non-trivial when the injected fault actually hit (nfaults > 0); distinct by (workload, mode, k, "
         "variant)")
 TRUSTED = ["Coq 8.16.1 kernel (vm_compute only on closed finite terms)",
